@@ -58,6 +58,25 @@ EXPLANATION = ("Theorems: the counting invariant (stored+1 = references in fligh
 N_OBJS = 3
 
 
+_UNSENDABLE = {}
+
+
+def unsendable(kind):
+    """a plain value `_box` accepts and `brine.dump` refuses: an int beyond the interpreter's str() digit limit ("bad"),
+    a tuple nested beyond the recursion limit ("deep")"""
+    import sys
+    if kind not in _UNSENDABLE:
+        lim = sys.get_int_max_str_digits() if hasattr(sys, "get_int_max_str_digits") else 0
+        if kind == "bad" and lim:
+            _UNSENDABLE[kind] = 10 ** (lim + 10)
+        else:
+            v = ()
+            for _ in range(sys.getrecursionlimit() * 3):
+                v = (v,)
+            _UNSENDABLE[kind] = v
+    return _UNSENDABLE[kind]
+
+
 class Blocked(Exception):
     """a step of the real code did not come to an end (a request nobody will ever answer)"""
 
@@ -114,7 +133,13 @@ def flat(shape):
         for x in shape:
             out += flat(x)
         return out
-    return [] if shape is None else [shape]
+    return [] if shape is None or isinstance(shape, str) else [shape]
+
+
+def has_marker(shape):
+    if isinstance(shape, (list, tuple)):
+        return any(has_marker(x) for x in shape)
+    return isinstance(shape, str)
 
 
 def to_tuple(shape):
@@ -219,6 +244,10 @@ class World:
             return tuple(self._fill(x) for x in shape)
         if shape is None:
             return 5
+        if shape == "bad":
+            return unsendable("bad")
+        if shape == "deep":
+            return unsendable("deep")
         return self._obj(shape)
 
     def _obj(self, k):
@@ -246,6 +275,22 @@ class World:
                     self.ca.async_request(c.HANDLE_CALL, self.sink_p, (), ())
                     return "ok"
                 self.ca.async_request(c.HANDLE_CALL, self.sink_p, self._fill(to_tuple(o[1])), ())
+                return "ok"
+            if kind == "sendFail":
+                # a request whose value is boxed (its objects are registered) and then cannot be serialized
+                try:
+                    self.ca.async_request(c.HANDLE_CALL, self.sink_p, self._fill(to_tuple(o[1])), ())
+                except EOFError:
+                    raise
+                except Exception:  # noqa
+                    return "unsendable"
+                return "ok"
+            if kind == "fetchFail":
+                # a request whose RESULT the owner will box and then not be able to send
+                res = self.cb.async_request(c.HANDLE_CALL, self.give_p, (to_tuple(o[1]),), ())
+                res.add_callback(self.results.append)
+                self.kept.add(self._seq_of(self.cb, res))
+                self.waiting.append([self._seq_of(self.cb, res), res, False])
                 return "ok"
             if kind == "fetch":
                 res = self.cb.async_request(c.HANDLE_CALL, self.give_p, (to_tuple(o[1]),), ())
@@ -278,6 +323,8 @@ class World:
                 if not self.results:
                     return "empty"
                 res = self.results.pop(0)
+                if res.error:                      # the request was answered with an exception: nothing to hold
+                    return "ok"
                 self._hold(res.value)
                 return "ok"
             if kind == "expire":
@@ -296,6 +343,7 @@ class World:
             if kind in ("dO", "dP"):
                 conn = self.cb if kind == "dO" else self.ca
                 mark = len(self.net.frames)
+                head = (self.queue_text("A") or [""])[0] if kind == "dP" and not self.closed else ""
                 served = conn.poll()
                 if kind == "dO":
                     self.waiting = [w for w in self.waiting if w[0] in self.cb._request_callbacks]
@@ -305,6 +353,8 @@ class World:
                     if who == ("B" if kind == "dO" else "A"):
                         msg = self.brine.load(data[5:-1])
                         if msg[0] == c.MSG_EXCEPTION:
+                            if head.startswith("fetchbad"):
+                                return "unsendable"        # the result could not be serialized: the requester is told so
                             try:
                                 return str(msg[2][0][1])
                             except Exception:  # noqa
@@ -422,7 +472,8 @@ class World:
                         k = self.key.get((str(local[0][0]), local[0][1], local[0][2]), "?")
                         out.append("del %s %s" % (k, boxed[1][1][1]))
                     elif handler == c.HANDLE_CALL and self.fn_packs.get(local[0]) == "give":
-                        out.append("fetch" + "".join(" %s" % k for k in flat(boxed[1][1][1][0])))
+                        shape = boxed[1][1][1][0]
+                        out.append(("fetchbad" if has_marker(shape) else "fetch") + "".join(" %s" % k for k in flat(shape)))
                     elif handler == c.HANDLE_CALL and self.fn_packs.get(local[0]) == "recv":
                         inner = boxed[1][1][1]       # (LOCAL_REF k, VALUE k, VALUE echo)
                         k = self.key.get((str(inner[0][1][0]), inner[0][1][1], inner[0][1][2]), "?")
@@ -467,6 +518,8 @@ class World:
         """ids the peer application can still reach: held proxies and proxies inside ready results"""
         out = set(self.held)
         for res in self.results:
+            if res.error:
+                continue
             try:
                 self._collect_ids(res.value, out)
             except Exception as ex:  # noqa
@@ -557,7 +610,7 @@ class World:
 # ---------------------------------------------------------------------------------------------- histories
 def op_text(o):
     kind = o[0]
-    if kind in ("send", "fetch"):
+    if kind in ("send", "fetch", "sendFail", "fetchFail"):
         return kind + "".join(" %d" % k for k in flat(o[1]))
     if kind == "back":
         return "back %d %s" % (o[1], "T" if o[2] else "F")
@@ -572,6 +625,8 @@ def op_text(o):
 
 SHAPES = [lambda a, b: [a], lambda a, b: [a, b], lambda a, b: [a, [b, a]], lambda a, b: [[a], None, a],
           lambda a, b: [None], lambda a, b: [a, a, a], lambda a, b: [[[a]], [b, [a, b]]], lambda a, b: []]
+BAD_SHAPES = [lambda a, b: [a, "bad"], lambda a, b: ["bad", a, b], lambda a, b: [a, [b, "bad", a]], lambda a, b: ["bad"],
+              lambda a, b: [[a, a], b, "bad"]]
 FETCH_SHAPES = [lambda a, b: a, lambda a, b: [a, b], lambda a, b: [a, [a]], lambda a, b: [], lambda a, b: [b, None, b]]
 
 
@@ -580,6 +635,10 @@ def random_op(r, w, n):
     a, b = r.below(n), r.below(n)
     for _ in range(20):
         x = r.below(100)
+        if x < 3:
+            return ["sendFail", r.choice(BAD_SHAPES)(a, b)]
+        if x < 6:
+            return ["fetchFail", r.choice(BAD_SHAPES)(a, b)]
         if x < 22:
             return ["send", r.choice(SHAPES)(a, b)]
         if x < 32:
@@ -645,6 +704,7 @@ def final_phase(w, run_op, n, close_side, close_hook=None):
     then drops everything; everything is delivered; close.  The statement's own observations are made on the way."""
     drain(w, run_op)
     reach = w.reachable_ids()
+    w.ca._last_traceback = w.cb._last_traceback = None      # see below
     w.forget()
     w.check_alive_iff_lent("after the owner's application forgot its objects")
     for k in sorted(reach):
@@ -655,6 +715,9 @@ def final_phase(w, run_op, n, close_side, close_hook=None):
     closing_phase(w, run_op)
     if w.back_log[before:before + used] != [True] * used:
         w.err.append("a proxy used at the end did not reach its own object: %r" % (w.back_log[before:],))
+    # `_last_traceback` keeps the frames (and so the locals) of the last exception a handler or a failed reply raised: a
+    # debugging aid that is overwritten by the next one; it is not counted as "the connection references the object"
+    w.ca._last_traceback = w.cb._last_traceback = None
     for k in range(n):
         if w.packs[k] in w.ca._local_objects._dict:
             w.err.append("object %d (%s) still in the owner's table after everything was dropped and delivered" % (k, w.kinds[k]))
@@ -769,6 +832,7 @@ def exhaustive(n, depth, alphabet, emit, deadline):
 
 ALPHABET_1 = [["send", [0]], ["send", [0, [0]]], ["fetch", 0], ["back", 0, False], ["back", 0, True], ["drop", 0],
               ["collect"], ["expire", 0], ["dO"], ["dP"]]
+ALPHABET_F = [["send", [0]], ["sendFail", [0, "bad"]], ["fetchFail", ["bad", 0]], ["drop", 0], ["collect"], ["dO"], ["dP"]]
 ALPHABET_2 = [["send", [0]], ["send", [1, [0, 1]]], ["fetch", [1]], ["back", 0, True], ["back", 1, False],
               ["drop", 0], ["drop", 1], ["collect"], ["expire", 0], ["dO"], ["dP"]]
 
@@ -786,6 +850,11 @@ CORPUS = [
     [["fetch", 1], ["dP"], ["dO"], ["send", [1]], ["dO"], ["drop", 1], ["collect"], ["drop", 1], ["dP"], ["dP"]],
     # not-enabled operations answer without touching anything
     [["drop", 0], ["collect"], ["back", 1, False], ["dO"], ["dP"], ["send", []], ["fetch", []], ["dP"], ["dO"], ["collect"]],
+    # messages that are boxed and then cannot be serialized, in both directions, around live proxies and traffic
+    [["sendFail", [0, "bad"]], ["fetchFail", [1, [2, "bad"]]], ["dP"], ["dO"], ["collect"]],
+    [["send", [0]], ["sendFail", [0, [0, 1], "bad"]], ["dO"], ["fetchFail", ["bad", 0, 0]], ["dP"], ["dP"], ["expire", 0], ["dO"],
+     ["drop", 0], ["dP"], ["sendFail", ["bad"]], ["fetchFail", ["bad"]], ["dP"], ["dO"], ["dO"]],
+    [["sendFail", [1, 2, "deep"]], ["fetchFail", [0, "deep"]], ["dP"], ["dO"], ["send", [1]], ["dO"], ["drop", 1]],
     # a reply for an expired result: unboxed, thrown away, its proxies die at once (nested, twice the same object)
     [["fetch", [0, [1, 0]]], ["dP"], ["expire", 0], ["dO"], ["dP"], ["dP"], ["dO"], ["dO"]],
     # expired while the reply is not even produced yet; a second, unexpired result behind it; a proxy held elsewhere
@@ -829,7 +898,8 @@ def correspondence(ctx):
               "corpus (the crossing race both ways, multi-box, hand-back dropped in flight, result as only holder, "
               "disabled ops, close with traffic in flight), ALL histories of enabled ops up to a depth over a 1-object "
               "and a 2-object alphabet, and seeded random histories (length 8..40, shapes: alone, several, nested tuples, "
-              "mixed with plain values, empty; AsyncResults expiring before their reply is delivered); each followed by the closing phase (use every held proxy, drop all, "
+              "mixed with plain values, empty; requests and replies that are boxed and then cannot be serialized — an int beyond the "
+              "digit limit, a tuple nested too deep, in front of / behind / between the references; AsyncResults expiring before their reply is delivered); each followed by the closing phase (use every held proxy, drop all, "
               "deliver all, close from either side). Compared after EVERY op: outcome, owner table counts, proxy counts, "
               "held set, ready results, decoded contents of both queues. Non-trivial = a proxy existed at some point; "
               "distinct = distinct canonical output of the whole history.")
@@ -853,6 +923,8 @@ def correspondence(ctx):
         d1, d2 = ctx.budget((5, 5), (6, 6))
         n1, full1 = exhaustive(1, d1, ALPHABET_1, emit_for(1, "exhaustive-1obj"), t0 + ctx.budget(30, 400))
         n2, full2 = exhaustive(2, d2, ALPHABET_2, emit_for(2, "exhaustive-2obj"), time.time() + ctx.budget(30, 200))
+        nf, fullf = exhaustive(1, d1, ALPHABET_F, emit_for(1, "exhaustive-failed-sends"), time.time() + ctx.budget(20, 200))
+        c.extra["exhaustive_failed_sends"] = dict(depth=d1, histories=nf, complete=fullf)
         c.extra["exhaustive_1obj"] = dict(depth=d1, histories=n1, complete=full1)
         c.extra["exhaustive_2obj"] = dict(depth=d2, histories=n2, complete=full2)
         n_rand = ctx.budget(2000, 40000)
@@ -919,7 +991,7 @@ def correspondence(ctx):
         for e in extra:
             c.disagreements.append(dict(case=dict(kind="extra", name=name), impl=e,
                                         model="(statement-level observation; the model predicts none)"))
-    c.exhaustive = bool(full1 and full2)
+    c.exhaustive = bool(full1 and full2 and fullf)
     return c
 
 
@@ -1202,7 +1274,7 @@ def oracle_history(ops, n=N_OBJS, close_side="A", kinds=None, ending=None):
         # a request the peer made through a live proxy must never be answered with an exception
         for o, s in zip(done, snaps):
             out = s.split(" ", 1)[0]
-            if out not in ("ok", "empty", "not-held", "closed", "disabled"):
+            if out not in ("ok", "empty", "not-held", "closed", "disabled", "unsendable"):
                 errs.append("op %s was answered with %s" % (op_text(o), out))
         return "; ".join(errs) if errs else None
     finally:
